@@ -89,6 +89,7 @@ static void check_input(Ctx& cx, const Paths& S, const Paths& C, const std::vect
   std::sort(inx.begin(), inx.end()); std::sort(iny.begin(), iny.end());
   Paths canS = canon_closed(S), canC = canon_closed(C);
   struct Cur { int ct = 0, fr = 0, pc = 0; } cur;
+  arm_watchdog(60);   // CPU-time limit per input: a library call that does not return is attributed to this case (crash_signal_26)
   rep.current_case = [&]() { return ckey(S, C, cur.ct, cur.fr, cur.pc); };
   for (int ct = 1; ct <= 4; ++ct) for (int fr = 0; fr < 4; ++fr) {
     if (only_ct && ct != only_ct) continue;
@@ -153,7 +154,7 @@ static void check_input(Ctx& cx, const Paths& S, const Paths& C, const std::vect
       if (verbose) printf("   verdict: %s\n", why.empty() ? "ok" : why.c_str());
     }
   }
-  rep.current_case = nullptr;
+  arm_watchdog(0); rep.current_case = nullptr;
 }
 
 int main(int argc, char** argv) {
